@@ -1,4 +1,4 @@
-import CookModel.Lemmas.LooseLeaf
+import CookModel.Lemmas.LooseQtyText
 /-
   C17, wave 5 (tag `bl17`): filler (block comments, blanks) inside the UNIT of a quantity written
   with `%` (`{1%big [- c -] cup}`), through `parse_quantity`.
@@ -18,12 +18,14 @@ namespace Cook
 
 variable {α : Type} [Arith α]
 
+/-- wave 10: `val` was `qF.val = q.val`; now also a text value with filler behind one of its blanks (`ValFiller`) -/
 structure QtyFiller (qF q : AQty) : Prop where
   lock : qF.lock = q.lock
-  val : qF.val = q.val
+  val : ValFiller qF.val q.val
   unit : OptRel FillerIn qF.unit q.unit
 
-theorem QtyFiller.refl (q : AQty) : QtyFiller q q := ⟨rfl, rfl, OptRel.refl_of (A := FillerIn) (fun l => .same l) _⟩
+theorem QtyFiller.refl (q : AQty) : QtyFiller q q :=
+  ⟨rfl, ValFiller.same _, OptRel.refl_of (A := FillerIn) (fun l => .same l) _⟩
 
 /-- `rt_qvalue` with any tokens `U` behind the value that start with a `%` (or nothing) -/
 theorem bl17_qvalue (q : AQty) (p : QPad) (s : BP α) (hq : q.ok s.cs = true) (hp : p.ok s.cs = true)
@@ -95,6 +97,23 @@ theorem bl17_qvalue (q : AQty) (p : QPad) (s : BP α) (hq : q.ok s.cs = true) (h
     simp only [bind, StateT.bind, h1, h2, h3]
     exact ⟨_, _, rfl, rfl⟩
 
+/-- `bl17_qvalue` for a value with filler (`ValFiller`) -/
+theorem w10v_qvalue (qF q : AQty) (hV : ValFiller qF.val q.val) (p : QPad) (s : BP α) (hsp : s.cs.uws ' ' = true)
+    (hq : q.ok s.cs = true) (hp : p.ok s.cs = true)
+    (hr : q.val.isRange = true → s.ext.has Gen.EXT_RANGE_VALUES = true)
+    (L pre M post U : List Tok) (ht : s.toks = L ++ (pre ++ M ++ post) ++ U) (hc : s.cur = 0)
+    (hL : Spells L (spellLock q.lock p)) (hpre : Spells pre p.v.pre) (hM : Spells M (spellCore qF.val p.v))
+    (hpost : Spells post p.v.post) (hUh : ∀ t, U.head? = some t → t.kind = .percent)
+    (hrun : RunAt (baseOff s.toks) s.toks) :
+    ∃ vspan lspan, qvalue s = (⟨⟨q.val.denote, vspan⟩, lspan⟩, { s with cur := (L ++ (pre ++ M ++ post)).length }) ∧
+      lspan.isSome = q.lock := by
+  rcases hV.elim with e | ⟨lF, l, e1, e2, hF⟩
+  · rw [e] at hM
+    exact bl17_qvalue q p s hq hp hr L pre M post U ht hc hL hpre hM hpost hUh hrun
+  · rw [e1] at hM
+    simp only [spellCore] at hM
+    exact w10v_qvalue_text q l lF e2 hF p s hsp hq hp L pre M post U ht hc hL hpre hM hpost hUh hrun
+
 theorem bl17_unit_head {uF : Option (List Tok)} {p : QPad} {U : List Tok} (hU : Spells U (spellUnit uF p)) :
     ∀ t, U.head? = some t → t.kind = .percent := rt_unit_head hU
 
@@ -111,16 +130,15 @@ theorem bl17_parseRegularQuantity (qF q : AQty) (hF : QtyFiller qF q) (p : QPad)
       sep.isSome = q.unit.isSome := by
   obtain ⟨L, pre, M, post, U, hts, hL, hpre, hM, hpost, hU⟩ := rt_qty_decomp hs
   rw [hF.lock] at hL
-  rw [hF.val] at hM
   subst ht
-  obtain ⟨vspan, lspan, hqv, hl⟩ := bl17_qvalue q p s hq hp hr L pre M post U hts hc hL hpre hM hpost
+  obtain ⟨vspan, lspan, hqv, hl⟩ := w10v_qvalue qF q hF.val p s hsp hq hp hr L pre M post U hts hc hL hpre hM hpost
     (bl17_unit_head hU) hrun
   have hq' := hq
   simp only [AQty.ok, Bool.and_eq_true] at hq'
   have hp' := hp
   simp only [QPad.ok, Bool.and_eq_true] at hp'
   obtain ⟨⟨⟨hpl0, hpv⟩, hpu0⟩, hpu1⟩ := hp'
-  obtain ⟨-, -, -, h, r, hMh, -, -⟩ := rt_val_facts hq'.1 hpv hpre hM hpost
+  obtain ⟨-, -, -, h, r, hMh, -, -⟩ := w10v_val_facts hF.val hq'.1 hpv hpre hM hpost
   have hne : s.toks ≠ [] := by rw [hts, hMh]; simp
   unfold parseRegularQuantity
   simp only [bind, StateT.bind, hqv]
@@ -173,11 +191,10 @@ theorem bl17_qty_kinds {cs : CharSpec} (qF q : AQty) (hF : QtyFiller qF q) (p : 
     (∀ t ∈ Q, t.kind ≠ .closeBrace) ∧ Q.any (fun t => !isPadK t) = true := by
   obtain ⟨L, pre, M, post, U, hts, hL, hpre, hM, hpost, hU⟩ := rt_qty_decomp hs
   rw [hF.lock] at hL
-  rw [hF.val] at hM
   simp only [AQty.ok, Bool.and_eq_true] at hq
   simp only [QPad.ok, Bool.and_eq_true] at hp
   obtain ⟨⟨⟨hpl0, hpv⟩, hpu0⟩, hpu1⟩ := hp
-  obtain ⟨bpre, bpost, hVk, h, r, hMh, hhb, hhk⟩ := rt_val_facts hq.1 hpv hpre hM hpost
+  obtain ⟨bpre, bpost, hVk, h, r, hMh, hhb, hhk⟩ := w10v_val_facts hF.val hq.1 hpv hpre hM hpost
   constructor
   · intro t ht
     rw [hts] at ht
@@ -226,34 +243,53 @@ theorem bl17_parseQuantity (qF q : AQty) (hF : QtyFiller qF q) (p : QPad) (outer
       parseQuantity ts outer = (⟨⟨⟨⟨⟨q.val.denote, vspan⟩, lspan⟩, unitT⟩, tokensSpan ts⟩, sep⟩, outer) ∧
       lspan.isSome = q.lock ∧ unitT.map (fun t => t.trimmed outer.cs) = q.unit.map leafText ∧
       sep.isSome = q.unit.isSome := by
-  rcases hF.unit.elim with ⟨euF, hu⟩ | ⟨uF, u, euF, hu, huF⟩
-  · -- no unit: nothing inserted, `qF` spells like `q`
-    have hs' : Spells ts (spellQty q p) := by
-      simp only [spellQty, hF.lock, hF.val, euF, hu] at hs ⊢
-      exact hs
-    exact rt_parseQuantity q p outer hq hp hr hadv ts hs' hrun
-  · obtain ⟨vspan, lspan, unitT, sep, hreg, h1, h2, h3⟩ :=
-      bl17_parseRegularQuantity qF q hF p ({ outer with toks := ts, cur := 0 } : BP α) hsp hq hp hr ts hs rfl rfl hrun
-    refine ⟨vspan, lspan, unitT, sep, ?_, h1, h2, h3⟩
-    obtain ⟨L, pre, M, post, U, hts, hL, hpre, hM, hpost, hU⟩ := rt_qty_decomp hs
-    have hpct : ts.any (fun t => t.kind == .percent) = true := by
-      rw [euF] at hU
-      simp only [spellUnit, List.append_assoc, List.cons_append, List.nil_append] at hU
-      obtain ⟨tpct, UR, rfl, hpk, -, hUR⟩ := hU.cons_inv
-      simp only [tk] at hpk
-      rw [hts]; simp [hpk]
-    have hne : ts.isEmpty = false := by
-      cases ts with
-      | nil => simp at hpct
-      | cons _ _ => rfl
-    unfold parseQuantity
-    simp only [hne, Bool.false_eq_true, if_false, bind, StateT.bind, get, getThe, MonadStateOf.get, StateT.get, set,
-      StateT.set, hasExt_run, pure, StateT.pure]
-    by_cases hext : outer.ext.has Gen.EXT_ADVANCED_UNITS = true
-    · have hc := bl17_parseAdvancedQuantity_pct ({ outer with toks := ts, cur := 0 } : BP α) hpct
-      have hw := withRecover_none _ _ _ hc
-      simp only [hext, if_true, hw, hreg, modify, modifyGet, MonadStateOf.modifyGet, StateT.modifyGet, pure, StateT.pure]
-    · simp only [hext, Bool.false_eq_true, if_false, hreg, modify, modifyGet, MonadStateOf.modifyGet,
-        StateT.modifyGet, pure, StateT.pure]
+  obtain ⟨vspan, lspan, unitT, sep, hreg, h1, h2, h3⟩ :=
+    bl17_parseRegularQuantity qF q hF p ({ outer with toks := ts, cur := 0 } : BP α) hsp hq hp hr ts hs rfl rfl hrun
+  refine ⟨vspan, lspan, unitT, sep, ?_, h1, h2, h3⟩
+  obtain ⟨L, pre, M, post, U, hts, hL, hpre, hM, hpost, hU⟩ := rt_qty_decomp hs
+  have hq' := hq
+  simp only [AQty.ok, Bool.and_eq_true] at hq'
+  have hp' := hp
+  simp only [QPad.ok, Bool.and_eq_true] at hp'
+  have hne : ts.isEmpty = false := by
+    obtain ⟨-, -, -, h, r, hMh, -, -⟩ := w10v_val_facts hF.val hq'.1 hp'.1.1.2 hpre hM hpost
+    rw [hts, hMh]; simp
+  -- the advanced form declines
+  have hdecl : outer.ext.has Gen.EXT_ADVANCED_UNITS = true →
+      ∃ c, parseAdvancedQuantity ({ outer with toks := ts, cur := 0 } : BP α) =
+        (none, { ({ outer with toks := ts, cur := 0 } : BP α) with cur := c }) := by
+    intro hext
+    rcases hF.unit.elim with ⟨euF, hu⟩ | ⟨uF, u, euF, hu, huF⟩
+    · -- no unit
+      rcases hF.val.elim with e | ⟨lF, l, e1, e2, hFl⟩
+      · have hs' : Spells ts (spellQty q p) := by
+          simp only [spellQty, hF.lock, e, euF, hu] at hs ⊢
+          exact hs
+        exact rt_parseAdvancedQuantity_none q p ({ outer with toks := ts, cur := 0 } : BP α) hq hp (hadv hext) ts hs' rfl rfl
+      · rw [euF] at hU
+        simp only [spellUnit] at hU
+        have hUn := hU.nil_inv
+        subst hUn
+        rw [hF.lock] at hL
+        rw [e1] at hM
+        simp only [spellCore] at hM
+        exact w10v_parseAdvancedQuantity_none_text q l lF e2 hFl hu p ({ outer with toks := ts, cur := 0 } : BP α) hq hp
+          (hadv hext) L pre M post (by simpa using hts) rfl hL hpre hM hpost
+    · have hpct : ts.any (fun t => t.kind == .percent) = true := by
+        rw [euF] at hU
+        simp only [spellUnit, List.append_assoc, List.cons_append, List.nil_append] at hU
+        obtain ⟨tpct, UR, rfl, hpk, -, hUR⟩ := hU.cons_inv
+        simp only [tk] at hpk
+        rw [hts]; simp [hpk]
+      exact ⟨0, bl17_parseAdvancedQuantity_pct ({ outer with toks := ts, cur := 0 } : BP α) hpct⟩
+  unfold parseQuantity
+  simp only [hne, Bool.false_eq_true, if_false, bind, StateT.bind, get, getThe, MonadStateOf.get, StateT.get, set,
+    StateT.set, hasExt_run, pure, StateT.pure]
+  by_cases hext : outer.ext.has Gen.EXT_ADVANCED_UNITS = true
+  · obtain ⟨c, hc⟩ := hdecl hext
+    have hw := withRecover_none _ _ _ hc
+    simp only [hext, if_true, hw, hreg, modify, modifyGet, MonadStateOf.modifyGet, StateT.modifyGet, pure, StateT.pure]
+  · simp only [hext, Bool.false_eq_true, if_false, hreg, modify, modifyGet, MonadStateOf.modifyGet,
+      StateT.modifyGet, pure, StateT.pure]
 
 end Cook
